@@ -1,11 +1,286 @@
 /-
-  C13 — concurrent parameter updates and artifact reads are linearizable.  Property theorems only.
+  C13 — concurrent parameter updates, parameter reads and artifact reads are linearizable.
+  Property theorems only.  Model: PolyVerif/Model/Linz.lean over the node graph of C11
+  (PolyVerif/Model/Nodes.lean); lock facts regenerated from /repo/generator/graph/instance.go into
+  PolyVerif/Gen/LockFacts.lean on every run.
 -/
-import PolyVerif.Model.Linz
+import PolyVerif.Lemmas.Linz
 import PolyVerif.Gen.LockFacts
 
 namespace PolyVerif
 namespace C13
+open Nodes Linz
+
+/-! ### the tie to the source: the three entry points are well locked -/
+
+open Gen.LockFacts in
+/-- before `.lock` only the whitelisted producers-map lookup and pure code; exactly one `.lock`;
+    after it either the deferred unlock comes immediately (then no other lock operation follows),
+    or there is no deferred unlock and the body ends with `… unlock, ret` with no other lock
+    operation or return inside; hence every `.access` lies between Lock and Unlock -/
+def wellLocked (f : Fn) : Bool :=
+  let pre := f.evs.takeWhile (· ≠ .lock)
+  let rest := (f.evs.dropWhile (· ≠ .lock)).drop 1
+  let noLockOps := fun (l : List Ev) => l.all (fun e => e ≠ .lock ∧ e ≠ .unlock ∧ e ≠ .deferUnlock)
+  f.evs.contains .lock
+  && pre.all (fun e => match e with | .producersLookup => true | .pure _ => true | _ => false)
+  && (match rest with
+      | .deferUnlock :: body => noLockOps body && body.getLast? == some .ret
+      | _ =>
+        let n := rest.length
+        n ≥ 2 && rest.drop (n - 2) == [.unlock, .ret]
+        && noLockOps (rest.take (n - 2)) && (rest.take (n - 2)).all (· ≠ .ret))
+  && rest.any (fun e => match e with | .access _ => true | _ => false)
+
+open Gen.LockFacts in
+/-- obligation on the regenerated facts: `UpdateParameter`, `ParameterData`, `Artifact` of the
+    current source take `producerLock` before any node-state access and release it (deferred, or
+    last) — the program shape the concurrent model `Linz.Step` gives every client -/
+theorem lock_facts_well_locked :
+    lockFacts.map (·.name) = ["UpdateParameter", "ParameterData", "Artifact"] ∧
+    lockFacts.all wellLocked = true := by decide
+
+open Gen.LockFacts in
+/-- the predicate is not vacuous: it rejects a body without the lock, one that reads before the
+    lock, and one that unlocks before reading -/
+example : wellLocked ⟨"a", [.producersLookup, .access "producer.Value()", .ret]⟩ = false
+    ∧ wellLocked ⟨"b", [.access "producer.Value()", .lock, .deferUnlock, .ret]⟩ = false
+    ∧ wellLocked ⟨"c", [.lock, .unlock, .access "producer.Value()", .ret]⟩ = false
+    ∧ wellLocked ⟨"d", [.lock, .access "producer.Value()", .unlock, .ret]⟩ = true := by decide
+
+variable {V : Type} [DecidableEq V]
+
+/-! ### mutual exclusion -/
+
+/-- in every reachable state of every execution: a client is inside its critical section iff it
+    owns the lock; so at most one client is -/
+theorem mutex_invariant (g0 : Graph V) (s : Sys V) (h : Exec g0 s) :
+    (∀ t, (s.pc t).inCrit = true ↔ s.lock = some t) ∧
+    (∀ t u, (s.pc t).inCrit = true → (s.pc u).inCrit = true → t = u) := by
+  have hj := J.exec h
+  refine ⟨fun t => ⟨hj.mutex t, hj.locked t⟩, ?_⟩
+  intro t u ht hu
+  have h1 := hj.mutex t ht
+  have h2 := hj.mutex u hu
+  rw [h1] at h2
+  exact Option.some.inj h2
+
+/-! ### linearizability -/
+
+/-- **every** execution — any number of clients, any interleaving of their steps, any calls — has
+    a history that is linearized by the order in which the critical sections ran (`s.lin`):
+    that order contains every completed operation with the response it returned (and the pending
+    ones that already took effect), respects real-time precedence, and is a run of the sequential
+    specification ending in the current shared state -/
+theorem linearizable (g0 : Graph V) (s : Sys V) (h : Exec g0 s) :
+    Linearization g0 s.hist s.lin ∧ s.g = (replay g0 (s.lin.map (·.call))).1 := by
+  have hj := J.exec h
+  refine ⟨⟨hj.nodup, hj.invoked, ?_, hj.realtime, hj.legal⟩, hj.state⟩
+  intro e he id r heq
+  subst heq
+  exact hj.complete id r he
+
+theorem linearizable' (g0 : Graph V) (s : Sys V) (h : Exec g0 s) : Linearizable g0 s.hist :=
+  ⟨s.lin, (linearizable g0 s h).1⟩
+
+/-- **one consistent snapshot** (by C11's `read_fresh`): in every linearization of any history
+    from a never-evaluated graph, the response of an `Artifact` call is the from-scratch
+    evaluation `Spec` of ONE state — the one its linearization point sees, i.e. the state reached
+    by the operations linearized before it -/
+theorem artifact_snapshot (g0 : Graph V) (h0 : Init g0) (hist : List (Event V)) (S : List (LOp V))
+    (hS : Linearization g0 hist S) (pre post : List (LOp V)) (o : LOp V) (i : Nat)
+    (hsplit : S = pre ++ o :: post) (hcall : o.call = .artifact i) :
+    o.resp = .val (Spec (replay g0 (pre.map (·.call))).1 i) := by
+  have hl := hS.legal
+  subst hsplit
+  simp only [List.map_append, List.map_cons] at hl
+  rw [replay_append] at hl
+  dsimp only at hl
+  have hlen : (replay g0 (pre.map (·.call))).2.length = (pre.map (·.resp)).length := by
+    simp [replay_length]
+  have h2 := (List.append_inj hl hlen).2
+  simp only [replay, List.cons.injEq] at h2
+  rw [← h2.1, hcall]
+  exact artifact_spec (replay_inv h0.inv _) i
+
+omit [DecidableEq V] in
+/-- … and that state's parameter valuation is exactly "initial value, overwritten by the last
+    update linearized before": no mixture of two states, and — with the real-time clause of
+    `Linearization` — nothing older than an update that completed before the read began -/
+theorem snapshot_params (g0 : Graph V) (p : Nat) (x : V) (n : Nat) (hp : g0 p = .param x n)
+    (cs : List (Call V)) :
+    ∃ n', (replay g0 cs).1 p = .param ((lastUpd cs p).getD x) n' :=
+  replay_param hp cs
+
+omit [DecidableEq V] in
+/-- the from-scratch value depends only on parameter values, processors and wiring (not on caches,
+    versions or what was evaluated before) -/
+theorem spec_depends_on_statics (g g' : Graph V) (hwf : WF g) (hs : SameStatic g' g) (i : Nat) :
+    Spec g' i = Spec g i := Spec_static hwf hs i
+
+/-- soundness of the executable check the driver runs on the order found by its (untrusted) search -/
+theorem witness_check_sound (g0 : Graph V) (h : List (Event V)) (S : List (LOp V))
+    (hc : checkWitness g0 h S = true) : Linearizable g0 h := by
+  simp only [checkWitness, Bool.and_eq_true, decide_eq_true_eq, List.all_eq_true, Bool.or_eq_true,
+    Bool.not_eq_true'] at hc
+  obtain ⟨⟨⟨⟨h1, h2⟩, h3⟩, h4⟩, h5⟩ := hc
+  refine ⟨S, h1, h2, ?_, ?_, h5⟩
+  · intro e he id r heq
+    subst heq
+    have := h3 _ he
+    simp only [List.any_eq_true, decide_eq_true_eq] at this
+    exact this
+  · intro a ha b hb hbef
+    rcases h4 a ha b hb with h | h
+    · rw [hbef] at h; cases h
+    · exact h
+
+/-! ### without the lock: a two-client schedule that is not linearizable -/
+
+omit [DecidableEq V] in
+/-- the evaluation micro-steps, run without interference, are exactly `Eval` (so the split used
+    below is faithful to `process()`) -/
+theorem micro_uninterrupted (g : Graph V) (hwf : WF g) (i : Nat) (s : SNode V) (hs : g i = .struct s)
+    (ho : Outdated g i = true) :
+    (microRun i s (g, []) (s.deps.map .pull ++ [.finish])).1 = (Eval g i).1 := by
+  have hgen : ∀ (ds : List Nat) (g1 : Graph V) (vals : List V),
+      microRun i s (g1, vals) (ds.map .pull) = ((pull Eval g1 ds).1, vals ++ (pull Eval g1 ds).2.1) := by
+    intro ds
+    induction ds with
+    | nil => intro g1 vals; simp [microRun, pull]
+    | cons d ds ih =>
+      intro g1 vals
+      simp only [List.map_cons, microRun, List.foldl_cons, micro, pull]
+      have := ih (Eval g1 d).1 (vals ++ [val (Eval g1 d).1 d])
+      simp only [microRun] at this
+      rw [this]
+      simp
+  rw [Eval_eq g hwf, hs]
+  simp only [ho, if_true, microRun, List.foldl_append, List.foldl_cons, List.foldl_nil]
+  have := hgen s.deps g []
+  simp only [microRun] at this
+  rw [this]
+  simp [micro]
+
+def f1 : List (Option Nat) → List (List Nat) → List Nat → Nat := fun _ _ vs => vs.foldl (· + ·) 1
+
+def mkN (sc : List (Option Nat)) : SNode Nat :=
+  { fn := f1, scalars := sc, arrays := [], cache := 0, version := 0, remembered := none, flag := false }
+
+/-- diamond: 0 = parameter a (value 1); 1 = L(a); 2 = R(a); 3 = producer P(L, R) -/
+def dia : Graph Nat := fun i =>
+  match i with
+  | 0 => .param 1 0
+  | 1 => .struct (mkN [some 0])
+  | 2 => .struct (mkN [some 0])
+  | 3 => .struct (mkN [some 1, some 2])
+  | _ => .param 0 0
+
+/-- the schedule: the reader's `Artifact(P)` pulls L, another client's whole `UpdateParameter(a, 10)`
+    runs, the reader pulls R and finishes -/
+def badSchedule : List (Micro Nat) := [.pull 1, .update 0 10, .pull 2, .finish]
+
+/-- the artifact value the reader returns under that schedule -/
+def mixed : Nat := val (microRun 3 (mkN [some 1, some 2]) (dia, []) badSchedule).1 3
+
+/-- the history the two clients observe -/
+def badHistory : List (Event Nat) :=
+  [.inv 0 0 (.artifact 3), .inv 1 1 (.update 0 10), .resp 1 .ok, .resp 0 (.val mixed)]
+
+/-- the artifact mixes L(a = 1) = 2 with R(a = 10) = 11: 14, while the two sequential answers are 5 and 23 -/
+theorem unlocked_mixes_states :
+    mixed = 14 ∧
+    (replay dia [.artifact 3, .update 0 10]).2 = [.val 5, .ok] ∧
+    (replay dia [.update 0 10, .artifact 3]).2 = [.ok, .val 23] := by decide
+
+/-- without the lock around the evaluation, the closed two-client schedule above produces a
+    history that NO order of the two operations explains -/
+theorem unlocked_not_linearizable : ¬ Linearizable dia badHistory := by
+  rintro ⟨S, hS⟩
+  have hval := unlocked_mixes_states
+  have hinvk : ∀ o ∈ S, (o.id = 0 ∧ o.call = .artifact 3) ∨ (o.id = 1 ∧ o.call = .update 0 10) := by
+    intro o ho
+    have := hS.invoked o ho
+    simp only [badHistory, LOp.invE, List.mem_cons, Event.inv.injEq, reduceCtorEq, List.not_mem_nil,
+      or_false] at this
+    rcases this with ⟨h1, _, h3⟩ | ⟨h1, _, h3⟩
+    · exact .inl ⟨h1, h3⟩
+    · exact .inr ⟨h1, h3⟩
+  obtain ⟨o1, ho1, hid1, hr1⟩ := hS.complete (.resp 1 .ok) (by simp [badHistory]) 1 .ok rfl
+  obtain ⟨o0, ho0, hid0, hr0⟩ := hS.complete (.resp 0 (.val mixed)) (by simp [badHistory]) 0 _ rfl
+  rw [hval.1] at hr0
+  have hnd := hS.nodup
+  have hlegal := hS.legal
+  match S, hinvk, ho1, ho0, hnd, hlegal with
+  | [], _, ho1, _, _, _ => simp at ho1
+  | [x], _, ho1, ho0, _, _ =>
+    simp only [List.mem_singleton] at ho1 ho0
+    subst ho1; subst ho0; omega
+  | [x, y], hinvk, ho1, ho0, hnd, hlegal =>
+    simp only [List.map_cons, List.map_nil, List.nodup_cons, List.mem_singleton, List.not_mem_nil,
+      not_false_eq_true, List.nodup_nil, and_true] at hnd
+    have hx := hinvk x (by simp)
+    have hy := hinvk y (by simp)
+    simp only [List.mem_cons, List.not_mem_nil, or_false] at ho1 ho0
+    simp only [List.map_cons, List.map_nil] at hlegal
+    rcases hx with ⟨hx1, hx2⟩ | ⟨hx1, hx2⟩ <;> rcases hy with ⟨hy1, hy2⟩ | ⟨hy1, hy2⟩
+    · omega
+    · rw [hx2, hy2, hval.2.1] at hlegal
+      simp only [List.cons.injEq, and_true] at hlegal
+      rcases ho0 with h | h
+      · subst h; rw [hr0] at hlegal; simp at hlegal
+      · subst h; omega
+    · rw [hx2, hy2, hval.2.2] at hlegal
+      simp only [List.cons.injEq, and_true] at hlegal
+      rcases ho0 with h | h
+      · subst h; omega
+      · subst h; rw [hr0] at hlegal; simp at hlegal
+    · omega
+  | x :: y :: z :: rest, hinvk, _, _, hnd, _ =>
+    have hx := hinvk x (by simp)
+    have hy := hinvk y (by simp)
+    have hz := hinvk z (by simp)
+    simp only [List.map_cons, List.nodup_cons, List.mem_cons, not_or] at hnd
+    omega
+
+/-- the same history is what the locked system can never produce: by `linearizable` every history
+    of the locked system is linearizable -/
+theorem locked_never_bad (s : Sys Nat) (h : Exec dia s) : s.hist ≠ badHistory := by
+  intro heq
+  exact unlocked_not_linearizable (heq ▸ linearizable' dia s h)
+
+/-! ### non-vacuity: a concrete interleaved execution of the locked system -/
+
+example : Init dia := by
+  constructor
+  · intro i s hs d hd
+    match i with
+    | 0 => simp [dia] at hs
+    | 1 | 2 | 3 =>
+      simp only [dia, mkN, Node.struct.injEq] at hs
+      subst hs
+      simp [SNode.deps] at hd
+      omega
+    | n+4 => simp [dia] at hs
+  · intro i s hs
+    match i with
+    | 0 => simp [dia] at hs
+    | 1 | 2 | 3 =>
+      simp only [dia, mkN, Node.struct.injEq] at hs
+      subst hs
+      rfl
+    | n+4 => simp [dia] at hs
+
+/-- the sequential witness `[update, artifact]` passes the executable check for the overlapping
+    history in which the update's response precedes the artifact's -/
+example : checkWitness dia
+    [.inv 0 0 (.artifact 3), .inv 1 1 (.update 0 10), .resp 1 .ok, .resp 0 (.val 23)]
+    [⟨1, 1, .update 0 10, .ok⟩, ⟨0, 0, .artifact 3, .val 23⟩] = true := by decide
+
+/-- and rejects the order that violates real time in a non-overlapping history -/
+example : checkWitness dia
+    [.inv 1 1 (.update 0 10), .resp 1 .ok, .inv 0 0 (.artifact 3), .resp 0 (.val 5)]
+    [⟨0, 0, .artifact 3, .val 5⟩, ⟨1, 1, .update 0 10, .ok⟩] = false := by decide
 
 end C13
 end PolyVerif
